@@ -27,12 +27,36 @@ def limits_of(sc):
             "max_lerr": c["max_local_error_reset_streams"]}
 
 
-def classify(sn, client):
-    """Every record goes into the first class that applies (Model/Bounds.v bsnap)."""
+KF3 = ("KF-C19-3 evicted-from-pending-capacity-without-release: leaked closed records add to the store without limit "
+       "(one per stream reset while it waited for connection capacity)")
+
+
+def leaked_serials(sc):
+    """Serials of records of known class KF-C19-3 (see store.snapshot_oracle): unreasoned records whose only reason in the previous
+    snapshot was is_pending_send_capacity."""
+    out, prev = set(), None
+    for st in sc["trace"]:
+        sn = st.get("snap")
+        if not sn:
+            continue
+        for s in sn["streams"]:
+            if not store.rec_reasons(s) and s["serial"] not in out:
+                before = next((x for x in (prev["streams"] if prev else []) if x["serial"] == s["serial"]), None)
+                if before is not None and store.rec_reasons(before) == ["is_pending_send_capacity"]:
+                    out.add(s["serial"])
+        prev = sn
+    return out
+
+
+def classify(sn, client, leaked=()):
+    """Every record goes into the first class that applies (Model/Bounds.v bsnap).  Records of the known class KF-C19-3 are put
+    into the bucket of the known unbounded classes (s_reserved), like the reserved pushed streams of KF-C18-1."""
     cl = {"held": 0, "counted": 0, "expiring": 0, "unaccepted": 0, "reserved": 0, "queued": 0, "other": 0}
     others = []
     for s in sn["streams"]:
-        if s["ref_count"] > 0:
+        if s["serial"] in leaked:
+            cl["reserved"] += 1
+        elif s["ref_count"] > 0:
             cl["held"] += 1
         elif s["is_counted"]:
             cl["counted"] += 1
@@ -64,6 +88,7 @@ def bounds_case(sc):
     if lim is None:
         return None, 0
     client = sc["cfg"]["role"] == "client"
+    leaked = leaked_serials(sc)
     seen, terms = set(), []
     max_send = 0
     unlimited_send = False
@@ -79,7 +104,7 @@ def bounds_case(sc):
         if ms < 0:
             unlimited_send = True
         max_send = max(max_send, ms, sn["conn"]["num_send_streams"])
-        cl, _ = classify(sn, client)
+        cl, _ = classify(sn, client, leaked)
         t = bsnap_term(cl, sn["conn"])
         if t not in seen:
             seen.add(t)
@@ -221,7 +246,8 @@ def abuse_oracle(sc):
     if lim is None:
         return None, [], {}
     client = sc["cfg"]["role"] == "client"
-    known = []
+    leaked = leaked_serials(sc)
+    known = [KF3] if leaked else []
     mx = {}
     # interim responses fed by the peer and not yet taken by the application (from the ops: hook-independent)
     info_fed = 0
@@ -242,7 +268,7 @@ def abuse_oracle(sc):
         if not sn:
             continue
         c = sn["conn"]
-        cl, others = classify(sn, client)
+        cl, others = classify(sn, client, leaked)
         records = c["store_slab"]
         total = sum(cl.values())
         for k, v in (("records", records), ("reserved", cl["reserved"]), ("recv_buffer", c["recv_buffer_len"]), ("pending_accept", len(sn["queues"]["pending_accept"])),
